@@ -278,7 +278,10 @@ func runC10(r *core.Run) {
 	c10Health(r, a, cfg, "after the faulted rotation", firstSite, "")
 	// (5) bounded liveness once faults stop: one fault-free rotation allowed to overwrite.
 	a.Now = a.Now.Add(24 * time.Hour)
-	if err, _ := a.Rotate(RotArgs{Flags: Flags{Overwrite: true}}); err != nil {
+	// (some operators keep --keep_going on every command line; with --overwrite present it must
+	// not hold leftovers in place)
+	recKG := r.Chance(25, "recovery-also-keep-going?")
+	if err, _ := a.Rotate(RotArgs{Flags: Flags{Overwrite: true, KeepGoing: recKG}}); err != nil {
 		r.Fail("recovery-rotation-fails", firstSite, "%s: after a rotation hit by %s, a fault-free `rotate --overwrite` fails: %v", cfg, firstSite, err)
 	}
 	c10Health(r, a, cfg, "after the recovery rotation", firstSite, "recovery:")
